@@ -9,9 +9,9 @@ Theorem C09_names_bound : length hook_names = 98.
 Proof. exact hook_names_count. Qed.
 Print Assumptions C09_names_bound.
 
-Theorem C09_all_live_partial : forall h, In h hook_names -> ~ In h known_dead -> live h = true.
-Proof. exact live_partial. Qed.
-Print Assumptions C09_all_live_partial.
+Theorem C09_all_live : forall h, In h hook_names -> live h = true.
+Proof. intros h H. apply live_partial; [exact H|intros []]. Qed.
+Print Assumptions C09_all_live.
 
 Theorem C09_translator_complete : missing = [].
 Proof. exact translator_complete. Qed.
